@@ -418,3 +418,7 @@ P("C17", TF, "        return jax.nn.softplus(x) + self.lower", "        return j
 P("C17", TF, "        y = jax.nn.sigmoid(x)", "        y = 1.0 / (1.0 + jnp.exp(-x))")
 P("C17", TF, "        return z + jnp.log(-jnp.expm1(-z))", "        return jnp.log(jnp.exp(z) - 1.0)")
 B("C17", TF, "        return z + jnp.log(-jnp.expm1(-z))", "        return z + jnp.log(jnp.expm1(-z))", "R-C17-inverse")
+
+# F21 (repaired): the checkpoint pad of an input must have that input's number of columns
+for _p, _r in (("C06", "R-C06-scan"), ("C07", "R-C07-padding"), ("C08", "R-C08-time"), ("C05", "R-C05-padding")):
+    B(_p, IG, "            dummy_external = jnp.zeros((size_difference, externals[key].shape[1]))", "            dummy_external = jnp.zeros((size_difference, externals[list(externals.keys())[0]].shape[1]))", _r)
